@@ -8,6 +8,7 @@
 import DDProofs.MddProofs
 import DDProofs.MddConv
 import DDProofs.MddGcReach
+import DDProofs.MddFuel
 import DDProofs.Inv
 namespace DD
 
@@ -272,6 +273,17 @@ theorem C15_gc_exact (dv : List MVar) (m : MddMgr) (ext : Nat → Nat) (h : MRea
   have G := mddGc_spec m ext hi hx none m' hr
   exact ⟨MReach.gc none m' h hr, fun x n hn => gc_exactly_reachable m ext hi hx m' hr x n hn,
     G.sub.nodes, G.den⟩
+
+/-! ### the fuel of the model is an artifact, never observed -/
+
+/-- the recursion bound the model gives `ite` (`len(vars) + 2`) and the iteration bound of the
+collection loop are never reached: neither operation ever reports `MODEL-OUT-OF-FUEL` -/
+theorem C15_no_fuel (m : MddMgr) (e : Err) (m' : MddMgr) :
+    (∀ g u v, MInv m → m.tbl.Mem g → m.tbl.Mem u → m.tbl.Mem v →
+      mIte g u v m = (.error e, m') → e ≠ .fuel) ∧
+    (∀ roots, mCollectGarbage roots m = (.error e, m') → e ≠ .fuel) :=
+  ⟨fun g u v h mg mu mv hr => mIte_not_fuel m h g u v mg mu mv e m' hr,
+   fun roots hr => mCollectGarbage_not_fuel roots m e m' hr⟩
 
 /-! ### non-vacuity: a concrete, non-trivial reachable manager
 
